@@ -154,6 +154,17 @@ def workload(tier, seed, scale=1.0):
                             op = rnd.choice(('add', 'sub')) if fam.startswith(('carry', 'borrow')) else None
                             for o in (('add', 'sub') if op is None else (op,)):
                                 cmds.append(cmd_bb('C01', o, sa * a, sb * b, 'I', cell=(o, 'I', sa * cell_a, sb * cell_b, fam), nontrivial=asm_ran))
+    # special-value pool: every ordered pair, both kinds, all sign combinations
+    from ..core import special_values
+    pool = special_values()
+    for a in pool:
+        for b in (pool if tier != 'quick' else pool[::3] + [a, a + 1, max(a - 1, 0)]):
+            if scale < 1.0 and rnd.random() > scale:
+                continue
+            for op in ('add', 'sub'):
+                cmds.append(cmd_bb('C01', op, a, b, 'U', cell=(op, 'U', 'pool', a.bit_length() // 32, b.bit_length() // 32)))
+                sa, sb = rnd.choice((1, -1)), rnd.choice((1, -1))
+                cmds.append(cmd_bb('C01', op, sa * a, sb * b, 'I', cell=(op, 'I', 'pool', sa, sb, a.bit_length() // 32, b.bit_length() // 32)))
     # zero operands with BigInt
     for v in (0, 1, -1, M64, -(1 << 64)):
         for w in (0, 5, -5, (1 << 320) - 1):
